@@ -8,8 +8,10 @@ import pyglove as pg
 from pgverif.gen import signatures as S
 
 TIERS = {
-    'quick': dict(shards=8, cases=120, calls=20),
-    'thorough': dict(shards=16, cases=1500, calls=40, timeout_s=3000),
+    'quick': dict(shards=8, cases=120, calls=20, family_every=2, sibling_calls=6,
+                  histories=2, steps=6),
+    'thorough': dict(shards=16, cases=1500, calls=40, family_every=3, sibling_calls=6,
+                     histories=2, steps=6, timeout_s=3000),
 }
 RULE = ('case = one generated signature (0-4 positional parameters with/without '
         'defaults, *args, 0-3 keyword-only parameters with/without defaults, '
@@ -18,20 +20,44 @@ RULE = ('case = one generated signature (0-4 positional parameters with/without 
         'that __init__ wrapped by pg.symbolize; `calls` ways of supplying '
         'arguments each (all at construction, all at call, split, re-bound with '
         'and without override_args, late binding by rebind/attribute assignment, '
-        'too many / too few / unknown / duplicated arguments). The oracle binds '
+        'too many / too few / unknown / duplicated arguments). Every '
+        '`family_every`-th case adds a FAMILY of 2-3 functions / classes with the '
+        'same parameters and one shared (or equal) code object but their own '
+        'defaults, keyword-only defaults and annotations (closure factory, the '
+        'same source compiled or executed twice with defaults read from globals, '
+        '__defaults__/__kwdefaults__/__annotations__ assigned afterwards, '
+        'types.FunctionType copies, one function symbolized again after its '
+        'defaults changed), symbolized in random order, `sibling_calls` ways of '
+        'supplying arguments each, compared with their own direct call. Every '
+        'case adds `histories` HISTORIES of one instance of a symbolized class '
+        '(pg.symbolize / pg.wrap) whose __init__ sets attributes conditionally and '
+        'rejects some values: construction / partial / placeholder start, then '
+        '`steps` rebinds (good values, values __init__ rejects, pg.oneof/floatv '
+        'placeholders, un-setting a required argument of a partial object, '
+        'dropping a **kwargs entry, completing); after every binding that '
+        'completes the public instance __dict__ must equal that of a fresh '
+        'Cls(*effective arguments), also for clone and JSON round trip. The oracle binds '
         'each part with inspect.signature(f).bind_partial, merges by name and '
         'calls the plain callable. Non-trivial = the signature has at least two '
         'kinds of parameters and at least one call returned and one was '
         'rejected; distinct by (signature text, call shapes).')
 REQUIRED_COUNTERS = ['functor_calls_compared', 'class_constructions_compared',
                      'both_return', 'both_typeerror', 'reported_args_checks',
-                     'signature_checks', 'clone_checks', 'json_checks']
+                     'signature_checks', 'clone_checks', 'json_checks',
+                     'sibling_functor_calls_compared', 'sibling_class_constructions_compared',
+                     'families_with_different_members', 'history_states_compared',
+                     'history_recoveries', 'history_placeholder_roundtrips',
+                     'history_partial_completions']
 ASSUMPTIONS = [
     'inspect.signature(f).bind_partial and the call f(*args, **kwargs) are the reference for argument binding',
     'documented functor rules: positional values at call time fill positions from 0; a name bound twice is a TypeError unless override_args; later binding wins with override_args',
     'not generated (left open): positional-only parameters, *args supplied both at construction and at call, keywords named like the *args/**kwargs parameters, MISSING_VALUE as an argument, ignore_extra_args',
     'after a JSON round trip only parameters without any value are bound at call time (defaults are serialized as values)',
     'values are ints (always for annotated signatures), short strings, None, small lists/dicts/tuples; containers are compared by content',
+    'a function is symbolized with the defaults / annotations its function object has at that moment (inspect.signature); it is not changed afterwards; members of a family are renamed before they are symbolized (symbolic classes are registered by name)',
+    'the state of a symbolized-class instance is its public instance __dict__ (names without a leading underscore) as written by the user __init__; it is only compared when all arguments are concrete and __init__ returned; while an argument is a placeholder (pg.oneof/floatv/manyof) or a required one is missing, and after a binding whose __init__ raised, the state is a don\'t-care',
+    'whether a rebind whose __init__ raised keeps or rolls back the assigned values is left open: every name it assigned (and every rejected value) is assigned again by the next rebind',
+    'pg.MISSING_VALUE in rebind removes a **kwargs entry / un-sets a required argument of an object made by .partial(); resetting an argument to its default that way is not generated',
 ]
 
 MODULE = 'pgverif_c18_dyn'
@@ -77,7 +103,10 @@ def _same(a, b):
 class Target:
   """A signature in all its renderings."""
 
-  def __init__(self, sig, uid, rng):
+  fkind, ckind = 'functor', 'class'
+  family = None
+
+  def __init__(self, sig, uid, rng, f=None, K=None, family=None):
     self.sig = sig
     self.pos, self.kwo = S.names(sig)
     self.defaults = {p[0]: p[2] for p in sig['pos'] + sig['kwonly'] if p[1]}
@@ -85,12 +114,20 @@ class Target:
     self.fname, self.cname = f'fn_{uid}', f'K_{uid}'
     self.fsrc = S.render_function(sig, self.fname)
     self.csrc = S.render_class(sig, self.cname)
-    exec(self.fsrc, ns)  # pylint: disable=exec-used
-    exec(self.csrc, ns)  # pylint: disable=exec-used
-    self.f = ns[self.fname]
-    self.K = ns[self.cname]
-    self.f.__module__ = MODULE
-    self.K.__module__ = MODULE
+    if f is None:
+      exec(self.fsrc, ns)  # pylint: disable=exec-used
+      exec(self.csrc, ns)  # pylint: disable=exec-used
+      self.f = ns[self.fname]
+      self.K = ns[self.cname]
+      self.f.__module__ = MODULE
+      self.K.__module__ = MODULE
+    else:
+      # A member of a family of callables that share their code: `fsrc` / `csrc`
+      # are its own equivalent source text (what the reference must equal).
+      self.f, self.K, self.family = f, K, family
+      self.fkind, self.ckind = 'sibling-functor', 'sibling-class'
+      self.fsrc = S.render_function(sig, f.__name__)
+      self.csrc = S.render_class(sig, K.__name__)
     self.pysig = inspect.signature(self.f)
     self.entry = rng.choice(['functor', 'functor()', 'symbolize', 'symbolize-auto-typing'])
     self.class_entry = rng.choice(['symbolize', 'symbolize-auto-typing'])
@@ -119,6 +156,11 @@ class Target:
     if not self.sig['varkw'] and any(n not in self.pos + self.kwo for n in k):
       return 'unknown-keyword'
     return 'other'
+
+  def witness(self, **kw):
+    if self.family is not None:
+      kw['family'] = self.family
+    return kw
 
   def bind(self, a, k):
     """('ok', named, varargs, extra) | ('TypeError', reason) via bind_partial."""
@@ -223,10 +265,14 @@ def compare(ctx, t, kind, phase, exp, got, witness, pattern):
   return False
 
 
-def check_report(ctx, t, kind, obj, state, witness, what='reported-args', where='sym_init_args'):
+def check_report(ctx, t, kind, obj, state, witness, what='reported-args', where='sym_init_args',
+                 skip=()):
   ctx.counters['reported_args_checks'] += 1
   exp = t.report(*state)
   got = {k: v for k, v in obj.sym_init_args.sym_items()}
+  for n in skip:      # bound to a placeholder: not an effective argument yet
+    exp.pop(n, None)
+    got.pop(n, None)
   ok = set(exp) == set(got)
   if ok:
     for n in exp:
@@ -246,10 +292,10 @@ def check_functor_props(ctx, t, fo, state, witness):
   unbound = {n for n in t.pos + t.kwo if n not in named and n not in t.defaults}
   ctx.counters['reported_args_checks'] += 1
   if set(fo.specified_args) != spec:
-    ctx.violation('reported-args', 'functor:specified_args',
+    ctx.violation('reported-args', f'{t.fkind}:specified_args',
                   f'bound by the user {sorted(spec)}; specified_args {sorted(fo.specified_args)}', witness)
   if set(fo.unbound_args) != unbound or bool(fo.is_fully_bound) != (not unbound):
-    ctx.violation('reported-args', 'functor:unbound_args',
+    ctx.violation('reported-args', f'{t.fkind}:unbound_args',
                   f'without a value {sorted(unbound)}; unbound_args {sorted(fo.unbound_args)}, '
                   f'is_fully_bound {fo.is_fully_bound}', witness)
 
@@ -262,15 +308,15 @@ def check_signature(ctx, t):
     if drop_self and ps and ps[0].name == 'self':
       ps = ps[1:]
     return ps
-  for kind, where, fn, drop in (('functor', '__init__', t.F.__init__, True),
-                                ('class', '__init__', t.C.__init__, True),
-                                ('class', 'class', t.C, False)):
+  for kind, where, fn, drop in ((t.fkind, '__init__', t.F.__init__, True),
+                                (t.ckind, '__init__', t.C.__init__, True),
+                                (t.ckind, 'class', t.C, False)):
     c['signature_checks'] += 1
     try:
       ps = params(fn, drop)
     except (TypeError, ValueError) as e:
       ctx.violation('signature', f'{kind}:{where}', f'inspect.signature fails: {e!r}',
-                    {'signature': S.render_params(t.sig)})
+                    t.witness(signature=S.render_params(t.sig)))
       continue
     got = [(p.name, p.kind, p.default) for p in ps]
     bad = got != ref
@@ -282,7 +328,7 @@ def check_signature(ctx, t):
     if bad:
       ctx.violation('signature', f'{kind}:{where}',
                     f'def ({S.render_params(t.sig)}) is presented as {inspect.signature(fn)}',
-                    {'signature': S.render_params(t.sig), 'entry': t.entry})
+                    t.witness(signature=S.render_params(t.sig), entry=t.entry))
 
 
 def merge_call(t, state, a2, k2, override):
@@ -343,9 +389,9 @@ def functor_call(ctx, t, j, rng):
   # *args given at both times is left open by the documentation.
   if sig['varargs'] and len(a1) > len(t.pos) and len(a2) > len(t.pos):
     a2 = a2[:len(t.pos)]
-  witness = {'def': t.fsrc.split('\n')[0], 'entry': t.entry, 'pattern': pattern,
-             'construct': [a1, k1], 'rebinds': rebinds, 'call': [a2, k2],
-             'override_args': override_at}
+  witness = t.witness(**{'def': t.fsrc.split('\n')[0], 'entry': t.entry, 'pattern': pattern,
+                         'construct': [a1, k1], 'rebinds': rebinds, 'call': [a2, k2],
+                         'override_args': override_at})
   c['pattern:' + pattern] += 1
   c['functor_calls_compared'] += 1
 
@@ -359,17 +405,17 @@ def functor_call(ctx, t, j, rng):
     if got1[0] == 'ok':
       # The error may still be reported at call time.
       got = outcome(lambda: got1[1]())
-      compare(ctx, t, 'functor', 'ctor', r1, got, witness, pattern)
+      compare(ctx, t, t.fkind, 'ctor', r1, got, witness, pattern)
     else:
-      compare(ctx, t, 'functor', 'ctor', r1, got1, witness, pattern)
+      compare(ctx, t, t.fkind, 'ctor', r1, got1, witness, pattern)
     return 'rejected'
   if got1[0] != 'ok':
     # Was the construction valid? Then the whole invocation is.
-    compare(ctx, t, 'functor', 'ctor', ('ok', '<a functor>'), got1, witness, pattern)
+    compare(ctx, t, t.fkind, 'ctor', ('ok', '<a functor>'), got1, witness, pattern)
     return 'rejected'
   fo = got1[1]
   state = (r1[1], r1[2], r1[3])
-  check_report(ctx, t, 'functor', fo, state, witness)
+  check_report(ctx, t, t.fkind, fo, state, witness)
   check_functor_props(ctx, t, fo, state, witness)
 
   # late binding
@@ -388,7 +434,7 @@ def functor_call(ctx, t, j, rng):
     ctx.label = None
     c['late_bindings'] += 1
   if rebinds:
-    check_report(ctx, t, 'functor', fo, state, witness, where='sym_init_args-after-rebind')
+    check_report(ctx, t, t.fkind, fo, state, witness, where='sym_init_args-after-rebind')
     check_functor_props(ctx, t, fo, state, witness)
 
   # call
@@ -406,18 +452,18 @@ def functor_call(ctx, t, j, rng):
   exp = expected(state, a2, k2)
   got = invoke(fo, a2, k2)
   phase = 'call'
-  agreed = compare(ctx, t, 'functor', phase, exp, got, witness, pattern)
+  agreed = compare(ctx, t, t.fkind, phase, exp, got, witness, pattern)
   # The call must not have changed what is bound.
-  check_report(ctx, t, 'functor', fo, state, witness, where='sym_init_args-after-call')
+  check_report(ctx, t, t.fkind, fo, state, witness, where='sym_init_args-after-call')
 
   # clone: same bound arguments, same behaviour
   if agreed:
     c['clone_checks'] += 1
     cl = fo.clone(deep=rng.random() < 0.5)
-    okr = check_report(ctx, t, 'functor', cl, state, witness, what='clone-differs', where='sym_init_args')
+    okr = check_report(ctx, t, t.fkind, cl, state, witness, what='clone-differs', where='sym_init_args')
     gotc = invoke(cl, a2, k2)
     if okr and (gotc[0] != got[0] or (got[0] == 'ok' and not same(got[1], gotc[1]))):
-      ctx.violation('clone-differs', 'functor:call-outcome',
+      ctx.violation('clone-differs', f'{t.fkind}:call-outcome',
                     f'original: {got[0]} {plain(got[1]) if got[0] == "ok" else ""!r:.200}; '
                     f'clone: {gotc[0]} {gotc[1]!r:.200}', witness)
     # JSON round trip: defaults are written as values, so only parameters
@@ -427,7 +473,7 @@ def functor_call(ctx, t, j, rng):
     js = pg.to_json(fo)
     back = pg.from_json(js)
     ctx.label = None
-    okr = check_report(ctx, t, 'functor', back, state, witness, what='json-differs', where='sym_init_args')
+    okr = check_report(ctx, t, t.fkind, back, state, witness, what='json-differs', where='sym_init_args')
     r2 = t.bind(a2, k2)
     kj = {}
     if r2[0] == 'ok':
@@ -437,7 +483,7 @@ def functor_call(ctx, t, j, rng):
     expj = expected(state, [], kj)
     gotj = invoke(back, [], kj, force_override=False)
     if okr and (gotj[0] != expj[0] or (expj[0] == 'ok' and not same(expj[1], gotj[1]))):
-      ctx.violation('json-differs', 'functor:call-outcome',
+      ctx.violation('json-differs', f'{t.fkind}:call-outcome',
                     f'call(**{kj!r}) on the round-tripped functor: expected {expj!r:.200}, got {gotj!r:.200}',
                     witness)
   return 'returned' if got[0] == 'ok' else 'rejected'
@@ -450,8 +496,8 @@ def class_call(ctx, t, j, rng):
   if pattern == 'partial':
     return class_partial(ctx, t, rng)
   a, k = S.make_call(rng, sig)
-  witness = {'class': t.csrc.split('\n')[1].strip(), 'entry': 'class-' + t.class_entry,
-             'pattern': pattern, 'construct': [a, k]}
+  witness = t.witness(**{'class': t.csrc.split('\n')[1].strip(), 'entry': 'class-' + t.class_entry,
+                         'pattern': pattern, 'construct': [a, k]})
   c['class_constructions_compared'] += 1
   try:
     exp = ('ok', t.K(*a, **k).got)
@@ -465,13 +511,13 @@ def class_call(ctx, t, j, rng):
     gotv = outcome(lambda: obj.got)
     if gotv[0] != 'ok':
       gotv = ('ok', '<__init__ did not run>')
-  if not compare(ctx, t, 'class', 'ctor', exp, gotv, witness, 'ctor-only'):
+  if not compare(ctx, t, t.ckind, 'ctor', exp, gotv, witness, 'ctor-only'):
     return 'rejected'
   if exp[0] != 'ok':
     return 'rejected'
   r1 = t.bind(a, k)
   state = (r1[1], r1[2], r1[3])
-  check_report(ctx, t, 'class', obj, state, witness)
+  check_report(ctx, t, t.ckind, obj, state, witness)
   if pattern == 'rebind':
     cand = t.pos + t.kwo + (['zz'] if sig['varkw'] else [])
     if cand:
@@ -488,22 +534,22 @@ def class_call(ctx, t, j, rng):
       ctx.label = None
       c['late_bindings'] += 1
       expr = t.final(*state, lambda *aa, **kk: t.K(*aa, **kk).got)
-      compare(ctx, t, 'class', 'rebind', expr, ('ok', obj.got), witness, 'rebind')
-      check_report(ctx, t, 'class', obj, state, witness, where='sym_init_args-after-rebind')
+      compare(ctx, t, t.ckind, 'rebind', expr, ('ok', obj.got), witness, 'rebind')
+      check_report(ctx, t, t.ckind, obj, state, witness, where='sym_init_args-after-rebind')
   want = t.final(*state, lambda *aa, **kk: t.K(*aa, **kk).got)
   c['clone_checks'] += 1
   cl = obj.clone(deep=rng.random() < 0.5)
-  check_report(ctx, t, 'class', cl, state, witness, what='clone-differs', where='sym_init_args')
+  check_report(ctx, t, t.ckind, cl, state, witness, what='clone-differs', where='sym_init_args')
   if not same(want[1], cl.got):
-    ctx.violation('clone-differs', 'class:init-arguments',
+    ctx.violation('clone-differs', f'{t.ckind}:init-arguments',
                   f'expected {want[1]!r:.200}; clone was initialised with {plain(cl.got)!r:.200}', witness)
   c['json_checks'] += 1
   ctx.label = 'class.json-round-trip'
   back = pg.from_json(pg.to_json(obj))
   ctx.label = None
-  check_report(ctx, t, 'class', back, state, witness, what='json-differs', where='sym_init_args')
+  check_report(ctx, t, t.ckind, back, state, witness, what='json-differs', where='sym_init_args')
   if not same(want[1], back.got):
-    ctx.violation('json-differs', 'class:init-arguments',
+    ctx.violation('json-differs', f'{t.ckind}:init-arguments',
                   f'expected {want[1]!r:.200}; round trip was initialised with {plain(back.got)!r:.200}',
                   witness)
   return 'returned'
@@ -518,8 +564,8 @@ def class_partial(ctx, t, rng):
   cut = rng.randint(0, len(keys))
   k1 = {n: k[n] for n in keys[:cut]}
   k2 = {n: k[n] for n in keys[cut:]}
-  witness = {'class': t.csrc.split('\n')[1].strip(), 'entry': 'class-' + t.class_entry,
-             'pattern': 'partial', 'construct': [a, k1], 'rebind': k2}
+  witness = t.witness(**{'class': t.csrc.split('\n')[1].strip(), 'entry': 'class-' + t.class_entry,
+                         'pattern': 'partial', 'construct': [a, k1], 'rebind': k2})
   r1 = t.bind(a, k1)
   if r1[0] != 'ok':
     return 'rejected'
@@ -541,9 +587,348 @@ def class_partial(ctx, t, rng):
   got = outcome(lambda: obj.got)
   if got[0] != 'ok':
     got = ('ok', '<__init__ did not run>')
-  compare(ctx, t, 'class', 'rebind', want, got, witness, 'partial')
-  check_report(ctx, t, 'class', obj, state, witness, where='sym_init_args-after-rebind')
+  compare(ctx, t, t.ckind, 'rebind', want, got, witness, 'partial')
+  check_report(ctx, t, t.ckind, obj, state, witness, where='sym_init_args-after-rebind')
   return 'returned'
+
+
+# -- families: callables that share a code object -------------------------------
+
+ANNOTATIONS = {'int': int, 'Any': typing.Any}
+
+
+def own_signature(sig):
+  ns = {'Any': typing.Any}
+  exec(S.render_function(sig, 'own'), ns)  # pylint: disable=exec-used
+  return inspect.signature(ns['own'])
+
+
+def run_family(ctx, sig, uid, rng):
+  """Functions / classes with one code object and their own defaults, each
+  symbolized in this process and compared with its own direct call."""
+  c = ctx.counters
+  fam = S.make_family(rng, sig, rng.choice([2, 2, 3]))
+  stages = S.build_family(rng, fam, uid, MODULE, ANNOTATIONS)
+  c['families'] += 1
+  c['family:' + fam['method']] += 1
+  texts = [S.render_params(s[0]) for s in stages]
+  members = []
+  for m, (msig, f, k, prepare, final) in enumerate(stages):
+    prepare()
+    info = {'made-by': fam['method'], 'symbolized-as-number': m + 1,
+            'symbolized-before': texts[:m]}
+    t = Target(msig, f'{uid}_f{m}', rng, f=f, K=k, family=info)
+    # The generator must have produced what the member's own source text says.
+    assert t.pysig == own_signature(msig), (str(t.pysig), texts[m], fam['method'])
+    ctx.label = 'symbolize'
+    t.build()
+    ctx.label = None
+    if final:
+      members.append(t)
+  ctx.seen('family_shapes', (fam['method'], len(set(texts)) > 1))
+  if len(set(texts)) > 1:
+    c['families_with_different_members'] += 1
+  for t in members:
+    before = sum(v['count'] for v in ctx.violations.values())
+    check_signature(ctx, t)
+    for j in range(ctx.params['sibling_calls']):
+      if sum(v['count'] for v in ctx.violations.values()) != before:
+        break       # one report per member
+      if j % 3 == 2:
+        class_call(ctx, t, j, rng)
+        c['sibling_class_constructions_compared'] += 1
+      else:
+        functor_call(ctx, t, j, rng)
+        c['sibling_functor_calls_compared'] += 1
+
+
+# -- histories of one instance of a symbolized class ---------------------------
+
+def public_state(obj):
+  return {k: v for k, v in vars(obj).items() if not k.startswith('_')}
+
+
+class HTarget(Target):
+  """A class with the signature of `base` whose __init__ builds state
+  conditionally (and rejects some values), symbolized."""
+  ckind = 'class'
+
+  def __init__(self, base, uid, rng):   # pylint: disable=super-init-not-called
+    self.sig, self.pos, self.kwo = base.sig, base.pos, base.kwo
+    self.defaults, self.pysig, self.f = base.defaults, base.pysig, base.f
+    self.plan = S.make_init_plan(rng, self.sig)
+    self.guarded = S.guarded(self.plan)
+    self.cname = f'H_{uid}'
+    self.csrc = S.render_stateful_class(self.sig, self.cname, self.plan)
+    ns = sys.modules[MODULE].__dict__
+    exec(self.csrc, ns)  # pylint: disable=exec-used
+    self.K = ns[self.cname]
+    self.K.__module__ = MODULE
+    self.class_entry = rng.choice(['symbolize', 'symbolize-auto-typing', 'wrap', 'wrap-auto-typing'])
+
+  def build(self):
+    auto = self.class_entry.endswith('auto-typing')
+    fn = pg.symbolize if self.class_entry.startswith('symbolize') else pg.wrap
+    self.C = fn(self.K, auto_typing=True) if auto else fn(self.K)
+
+  def fresh(self, state):
+    """Public state of the plain class built from the effective arguments."""
+    return outcome(lambda: self.final(*state, lambda *aa, **kk: public_state(self.K(*aa, **kk))))
+
+
+def history_value(rng, t, name, current, bad=False):
+  """A value for `name` that differs from `current` (rejected by __init__ if `bad`)."""
+  sig = t.sig
+  if bad:
+    return rng.choice([v for v in S.BAD_VALUES if v != current] or list(S.BAD_VALUES))
+  for _ in range(8):
+    r = rng.random()
+    if r < 0.35:
+      # values that switch a conditional attribute off
+      cand = [S.NEUTRAL]
+      if isinstance(t.defaults.get(name), int):
+        cand.append(t.defaults[name])
+      if not sig['typed']:
+        cand += [None, None]
+      v = rng.choice(cand)
+    elif sig['typed'] or r < 0.85:
+      v = rng.randint(20, 60)
+    else:
+      v = rng.choice(['s', 't', [1, 2], {'x': 1}, 2.5])
+    if not (type(v) is type(current) and v == current):
+      return v
+  return rng.randint(61, 99)
+
+
+def placeholder(rng, sig):
+  if sig['typed'] or rng.random() < 0.7:
+    return pg.oneof([rng.randint(20, 40), rng.randint(41, 60)])
+  return rng.choice([pg.floatv(0.0, 1.0), pg.oneof(['s', 't']), pg.manyof(2, [21, 22, 23])])
+
+
+def class_history(ctx, t, rng):
+  """One instance driven through (re)bindings; after every binding that
+  completes, its state must be that of a fresh `K(*effective arguments)`."""
+  c = ctx.counters
+  sig = t.sig
+  ops = []
+  witness = {'class': t.csrc, 'entry': 'class-' + t.class_entry, 'history': ops}
+  HOLE = object()
+  current = lambda st, n: st[0].get(n, st[2].get(n, t.defaults.get(n, HOLE)))
+
+  # -- start -----------------------------------------------------------------
+  start = rng.choice(['construct', 'construct', 'partial', 'placeholder'])
+  for _ in range(4):
+    a, k = S.make_call(rng, sig, 'valid')
+    r = t.bind(a, k)
+    assert r[0] == 'ok'
+    state = (r[1], r[2], r[3])
+    if start != 'construct' or rng.random() < 0.3 or t.fresh(state)[0] == 'ok':
+      break
+  holes = {}          # name -> 'placeholder' | 'missing'
+  partial = False
+  if start == 'partial':
+    partial = True
+    required = [n for n in t.pos + t.kwo if n not in t.defaults]
+    drop = rng.sample(required, rng.randint(1, len(required))) if required else []
+    a, k = [], dict(state[0], **state[2])
+    state = ({n: v for n, v in state[0].items() if n not in drop}, (), state[2])
+    for n in drop:
+      k.pop(n)
+      holes[n] = 'missing'
+  elif start == 'placeholder':
+    cand = list(state[0]) + list(state[2])
+    if cand:
+      n = rng.choice(cand)
+      ph = placeholder(rng, sig)
+      if n in t.pos and t.pos.index(n) < len(a):
+        a = list(a)
+        a[t.pos.index(n)] = ph
+      else:
+        k = dict(k, **{n: ph})
+      state = ({x: v for x, v in state[0].items() if x != n}, state[1],
+               {x: v for x, v in state[2].items() if x != n})
+      holes[n] = 'placeholder'
+  ops.append(['partial' if partial else 'construct', [a, k]])
+  c['history:start-' + start] += 1
+  c['histories'] += 1
+
+  since = set()         # what happened since __init__ last completed
+  dirty = set()         # names assigned by a binding that raised
+  initialized = False
+
+  def event():
+    for e in ('failed-init', 'placeholder', 'partial'):
+      if e in since:
+        return 'after-' + e
+    return 'after-rebind' if initialized else 'first-init'
+
+  def judge(got, obj, what):
+    """Compares the outcome of a binding with the reference. False ends the history."""
+    nonlocal initialized
+    if holes:
+      since.update('placeholder' if h == 'placeholder' else 'partial' for h in holes.values())
+      if got[0] != 'ok':
+        ctx.violation('rejects-valid', f'{t.ckind}.history:{what}-incomplete',
+                      f'binding of an object that stays incomplete raised {got[0]}: {got[1]!s:.300}',
+                      witness)
+        return False
+      c['history_incomplete_bindings'] += 1
+      return True
+    exp = t.fresh(state)
+    assert exp[0] in ('ok', 'ValueError'), exp
+    if exp[0] == 'ok':
+      exp = exp[1]
+      assert exp[0] == 'ok', exp
+    ev = event()
+    c['history_states_compared'] += 1
+    c['history:' + ev] += 1
+    if exp[0] == 'ValueError':
+      c['history_failed_inits'] += 1
+      since.add('failed-init')
+      if got[0] == 'ok':
+        ctx.violation('accepts-invalid', f'{t.ckind}.history.{ev}:init-raises',
+                      f'{t.cname}(*effective arguments) raises {exp[1]!r}; the binding succeeded', witness)
+        return False
+      if got[0] != 'ValueError':
+        ctx.violation('error-kind', f'{t.ckind}.history.{ev}:init-raises',
+                      f'plain raises {exp[1]!r}; symbolic raised {got[0]}: {got[1]!s:.300}', witness)
+        return False
+      return True
+    if got[0] != 'ok':
+      ctx.violation('rejects-valid', f'{t.ckind}.history:{ev}',
+                    f'plain gives {exp[1]!r:.200}; symbolic raised {got[0]}: {got[1]!s:.300}', witness)
+      return False
+    have = public_state(obj)
+    if not same(exp[1], have):
+      ctx.violation('wrong-state', f'{t.ckind}.history:{ev}',
+                    f'{t.cname}(*effective arguments) has {exp[1]!r:.400}\n'
+                    f'symbolic object has {plain(have)!r:.400}', witness)
+      return False
+    if 'placeholder' in since:
+      c['history_placeholder_roundtrips'] += 1
+    if 'partial' in since:
+      c['history_partial_completions'] += 1
+    if 'failed-init' in since:
+      c['history_recoveries'] += 1
+    since.clear()
+    initialized = True
+    if not check_report(ctx, t, t.ckind, obj, state, witness, where='history-sym_init_args'):
+      return False
+    return True
+
+  def copies(obj):
+    want = t.fresh(state)[1][1]
+    c['clone_checks'] += 1
+    ctx.label = 'class.clone'
+    cl = obj.clone(deep=rng.random() < 0.5)
+    ctx.label = 'class.json-round-trip'
+    back = pg.from_json(pg.to_json(obj))
+    ctx.label = None
+    c['json_checks'] += 1
+    for what, o in (('clone-differs', cl), ('json-differs', back)):
+      check_report(ctx, t, t.ckind, o, state, witness, what=what, where='history-sym_init_args')
+      have = public_state(o)
+      if not same(want, have):
+        ctx.violation(what, f'{t.ckind}.history:state',
+                      f'expected {want!r:.300}; copy has {plain(have)!r:.300}', witness)
+
+  ctor = t.C.partial if partial else t.C
+  got = outcome(lambda: ctor(*a, **k))
+  obj = got[1] if got[0] == 'ok' else None
+  if not judge(got, obj, 'construct') or obj is None:
+    return
+  if holes:
+    check_report(ctx, t, t.ckind, obj, state, witness, where='history-sym_init_args',
+                 skip=[n for n, h in holes.items() if h == 'placeholder'])
+
+  # -- (re)bindings ------------------------------------------------------------
+  steps = ctx.params['steps']
+  for step in range(steps):
+    last = step == steps - 1
+    named, varargs, extra = dict(state[0]), state[1], dict(state[2])
+    assignable = t.pos + t.kwo + sorted(extra) + (
+        [u for u in S.UNKNOWN if u not in extra] if sig['varkw'] else [])
+    guarded = [n for n in t.guarded if n in assignable]
+    choices = ['rebind', 'rebind']
+    if guarded and not last:
+      choices += ['bad', 'bad']
+    if not last and (named or extra):
+      choices += ['placeholder']
+    if not last and partial and any(n in named and n not in t.defaults for n in t.pos + t.kwo):
+      choices += ['unset']
+    if extra and not dirty:
+      choices += ['drop-extra']
+    if holes:
+      choices += ['fill'] * 4
+    op = rng.choice(choices)
+    if dirty or last and holes:
+      op = 'fill'
+    upd = {}
+    def assign(n, v):
+      upd[n] = v
+      holes.pop(n, None)
+      (named if n in t.pos + t.kwo else extra)[n] = v
+    if op in ('rebind', 'bad'):
+      if not assignable:
+        continue
+      for n in rng.sample(assignable, min(len(assignable), rng.randint(1, 3))):
+        assign(n, history_value(rng, t, n, current(state, n)))
+      if op == 'bad':
+        n = rng.choice(guarded)
+        assign(n, history_value(rng, t, n, current(state, n), bad=True))
+    elif op == 'fill':
+      for n in sorted(set(holes) | dirty):
+        assign(n, history_value(rng, t, n, current(state, n)))
+      if rng.random() < 0.3 and assignable:
+        n = rng.choice(assignable)
+        if n not in upd:
+          assign(n, history_value(rng, t, n, current(state, n)))
+    elif op == 'placeholder':
+      n = rng.choice(sorted(named) + sorted(extra))
+      upd[n] = placeholder(rng, sig)
+      named.pop(n, None)
+      extra.pop(n, None)
+      holes[n] = 'placeholder'
+    elif op == 'unset':
+      n = rng.choice([n for n in t.pos + t.kwo if n in named and n not in t.defaults])
+      upd[n] = MISSING
+      named.pop(n)
+      holes[n] = 'missing'
+    else:
+      n = rng.choice(sorted(extra))
+      upd[n] = MISSING
+      extra.pop(n)
+    state = (named, varargs, extra)
+    ops.append([op, dict(upd)])
+    c['history_op:' + op] += 1
+    c['late_bindings'] += 1
+    got = outcome(lambda: obj.rebind(upd, raise_on_no_change=False))
+    was_dirty = bool(dirty)
+    if not holes and t.fresh(state)[0] == 'ValueError':
+      # (whatever was assigned, and whatever is rejected, is assigned again next)
+      dirty |= set(upd) | {n for n in t.guarded if current(state, n) in S.BAD_VALUES}
+    elif not holes or not was_dirty:
+      # (a binding that does not run __init__ leaves a failed one unrepaired)
+      dirty.clear()
+    if not judge(got, obj, 'rebind'):
+      return
+    if holes and not dirty:
+      check_report(ctx, t, t.ckind, obj, state, witness, where='history-sym_init_args',
+                   skip=[n for n, h in holes.items() if h == 'placeholder'])
+    if not holes and not dirty and (last or rng.random() < 0.3):
+      copies(obj)
+
+
+def run_histories(ctx, base, uid, rng):
+  h = HTarget(base, uid, rng)
+  ctx.label = 'symbolize'
+  h.build()
+  ctx.label = None
+  ctx.counters['history_entry:' + h.class_entry] += 1
+  for _ in range(ctx.params['histories']):
+    class_history(ctx, h, rng)
+  return h
 
 
 def run_case(ctx, i):
@@ -566,8 +951,12 @@ def run_case(ctx, i):
     else:
       results.add(functor_call(ctx, t, j, rng))
   kinds = (bool(sig['pos']) + bool(sig['varargs']) + bool(sig['kwonly']) + bool(sig['varkw']))
+  if i % ctx.params['family_every'] == 0:
+    run_family(ctx, sig, f'{ctx.shard}_{i}', rng)
+  h = run_histories(ctx, t, f'{ctx.shard}_{i}', rng)
   if kinds >= 2 and {'returned', 'rejected'} <= results:
     ctx.mark_nontrivial((S.render_params(sig), t.entry, t.class_entry))
   if i < 2:
     ctx.sample({'def': t.fsrc, 'entry': t.entry, 'class_entry': t.class_entry,
-                'calls': ctx.params['calls']})
+                'calls': ctx.params['calls'], 'history_class': h.csrc,
+                'history_entry': h.class_entry})
